@@ -20,7 +20,8 @@ def _named(name):
 JOBS = {op: _named(op) for op in OPS}
 
 
-def make_slow_manager(a, users, ops=OPS):
+def make_slow_manager(a, users, ops=OPS, delay=None):
+    """delay=None: suspend on an executor job (environment event); delay=seconds: sleep that long (virtual time)"""
     class SlowUserManager(a.MemoryUserManager):
         def __init__(self, users):
             super().__init__(users)
@@ -31,7 +32,10 @@ def make_slow_manager(a, users, ops=OPS):
             if op in ops:
                 self.suspensions[op] += 1
                 try:
-                    await asyncio.get_running_loop().run_in_executor(None, JOBS[op])
+                    if delay is not None:
+                        await asyncio.sleep(delay)
+                    else:
+                        await asyncio.get_running_loop().run_in_executor(None, JOBS[op])
                 except asyncio.CancelledError:
                     self.cancelled_in[op] += 1
                     raise
